@@ -15,6 +15,7 @@ import (
 	"errors"
 	"fmt"
 	"runtime"
+	"runtime/debug"
 	"strings"
 	"sync"
 	"sync/atomic"
@@ -246,8 +247,21 @@ var errShapes = []string{"", "", "wrapped", "pkg_wrapped", "own_deadline", "own_
 func genCase(t *rapid.T) Case {
 	c := Case{}
 	n := rapid.SampledFrom([]int{1, 1, 1, 2, 3}).Draw(t, "pools")
+	// one case in ten is a config with many pools (4-8): the engine starts them one after the other, each in its own
+	// goroutine, so the run can be over - cancelled, or failed in one pool - before some of them have begun
+	many := rapid.IntRange(0, 9).Draw(t, "manyPools") == 4
+	if many {
+		n = rapid.IntRange(4, 8).Draw(t, "pools")
+	}
 	mode := rapid.SampledFrom([]string{"fault", "fault", "fault", "cancel", "both", "none"}).Draw(t, "mode")
 	faultyPool := rapid.IntRange(0, n-1).Draw(t, "faultyPool")
+	// two in three of the failing many-pool runs, and one in eight of the other failing runs with several pools, fail
+	// AT ONCE: at a step the faulty pool goes through before it has started anything (see genFailsAtOnce)
+	atOnce := false
+	if n > 1 && (mode == "fault" || mode == "both") {
+		k := rapid.IntRange(0, 23).Draw(t, "failsAtOnce")
+		atOnce = (many && k%3 != 0) || (!many && k >= 8 && k <= 10)
+	}
 	// one case in twenty (quick tier; one in fifty of the 64 times larger thorough tier) has a crowded pool (rapid
 	// prefers the ends of a range)
 	crowdPool := -1
@@ -255,6 +269,12 @@ func genCase(t *rapid.T) Case {
 		crowdPool = rapid.IntRange(0, n-1).Draw(t, "crowdPool")
 	}
 	for i := 0; i < n; i++ {
+		if atOnce && i == faultyPool {
+			p := genPool(t, false, i == crowdPool)
+			genFailsAtOnce(t, &p)
+			c.Pools = append(c.Pools, p)
+			continue
+		}
 		c.Pools = append(c.Pools, genPool(t, (mode == "fault" || mode == "both") && i == faultyPool, i == crowdPool))
 	}
 	if mode == "cancel" || mode == "both" {
@@ -293,6 +313,30 @@ func genCase(t *rapid.T) Case {
 	genIDs(t, &c)
 	genSlowSteps(t, &c)
 	return c
+}
+
+// genFailsAtOnce gives a healthy pool a fault plan that fails at the pool's first steps - creation of the warm-up
+// gun, WarmUp, creation of a shared schedule, the first Bind, the provider before its first ammo, the aggregator as
+// soon as it runs - mostly without any delay: the run is then over while the engine is still starting the other pools.
+func genFailsAtOnce(t *rapid.T, p *PoolCase) {
+	delay := rapid.SampledFrom([]int{0, 0, 0, 100}).Draw(t, "atOnceDelayUs")
+	p.Real = nil
+	switch rapid.SampledFrom([]string{"factory", "factory", "warmup", "sched", "bind", "provider", "aggregator"}).Draw(t, "atOnceKind") {
+	case "factory":
+		p.Gun.FactoryErrAt, p.Gun.FaultUs = 0, delay
+	case "warmup":
+		p.Gun.WarmUp, p.Gun.WarmUpErr, p.Gun.FaultUs = true, true, delay
+	case "sched":
+		p.PerInstance, p.SchedErrAt, p.SchedFaultUs = false, 0, delay
+	case "bind":
+		p.Gun.BindErrAt, p.Gun.FaultUs = 0, delay
+	case "provider":
+		p.Prov.Fault, p.Prov.FaultUs = "before_first", delay
+		p.Prov.ErrShape = rapid.SampledFrom(errShapes).Draw(t, "provErrShape")
+	case "aggregator":
+		p.Agg.Fault, p.Agg.FaultUs = "start", delay
+		p.Agg.ErrShape = rapid.SampledFrom(errShapes).Draw(t, "aggErrShape")
+	}
 }
 
 // endless: the pool's instances never run out of ammo or schedule within a run of the harness (60 s of schedule,
@@ -421,6 +465,8 @@ type poolRun struct {
 	schedHit atomic.Bool
 	spanMu   sync.Mutex
 	spans    []fake.StepSpan
+	// rec: the instant every call of the engine into a component of this pool started (callrec_test.go)
+	rec *callRec
 }
 
 // stepSpans: all plain delays the pool's doubles spent in context-blind steps.
@@ -431,7 +477,7 @@ func (pr *poolRun) stepSpans() []fake.StepSpan {
 }
 
 func buildPool(i int, pc PoolCase) (*poolRun, engine.InstancePoolConfig, error) {
-	pr := &poolRun{pc: pc}
+	pr := &poolRun{pc: pc, rec: &callRec{}}
 	pr.prov = fake.NewProvider(pc.Prov)
 	var provider core.Provider = pr.prov
 	if pc.Real != nil {
@@ -477,12 +523,14 @@ func buildPool(i int, pc PoolCase) (*poolRun, engine.InstancePoolConfig, error) 
 	}
 	var mu = make(chan struct{}, 1)
 	locked := func() (core.Schedule, error) {
+		pr.rec.begin("schedule factory")
 		mu <- struct{}{}
 		defer func() { <-mu }()
 		return newSched()
 	}
 	return pr, engine.InstancePoolConfig{
-		ID: pc.configID(i), Provider: provider, Aggregator: pr.aggr, NewGun: pr.guns.Factory,
+		ID: pc.configID(i), Provider: recProvider{provider, pr.rec}, Aggregator: recAggregator{pr.aggr, pr.rec},
+		NewGun:         recFactory(pr.rec, pr.guns.Factory),
 		RPSPerInstance: pc.PerInstance, NewRPSSchedule: locked,
 		StartupSchedule: schedule.NewOnce(int64(pc.Instances)), DiscardOverflow: pc.DiscardOnPool,
 	}, nil
@@ -524,8 +572,9 @@ func check(c Case, o *vf.Obs) error {
 	if rep < 1 {
 		rep = 1
 	}
+	seen := map[string]bool{}
 	for i := 0; i < rep; i++ {
-		if err := once(c, o, i == 0); err != nil {
+		if err := once(c, o, i == 0, seen); err != nil {
 			return fmt.Errorf("run %d: %w", i, err)
 		}
 	}
@@ -539,7 +588,10 @@ const runDeadline = 20 * time.Second
 // the cli gives a SIGTERM'ed run 3 s before it gives up on a graceful stop.
 const promptBound = time.Second
 
-func once(c Case, o *vf.Obs, classify bool) error {
+// once runs the case one time. classify: label the case with the classes this run showed; the classes that depend on
+// how the Go scheduler interleaved the start of the pools with the end of the run are looked for in every run of the
+// case and counted once (seen).
+func once(c Case, o *vf.Obs, classify bool, seen map[string]bool) error {
 	var prs []*poolRun
 	conf := engine.Config{}
 	defer func() {
@@ -573,7 +625,18 @@ func once(c Case, o *vf.Obs, classify bool) error {
 	var runReturned time.Time
 	var openAtRunNil []string
 	done := make(chan struct{})
+	// Engine.Wait is called the way the cli and a library user call it: straight after Run returned, from the same
+	// goroutine, with nothing in between that would give the engine time to get on with what it has begun.
+	var waitCalled, waitReturned time.Time
+	var openAtWait []string
+	waited := make(chan struct{})
+	crashed := make(chan error, 1) // a panic that came out of Engine.Run / Engine.Wait themselves
 	go func() {
+		defer func() {
+			if p := recover(); p != nil {
+				crashed <- fmt.Errorf("panic: %v\n%s", p, debug.Stack())
+			}
+		}()
 		runErr = eng.Run(ctx)
 		if runErr == nil {
 			// "successful run awaits all started tasks": judged at this instant, not later
@@ -581,6 +644,11 @@ func once(c Case, o *vf.Obs, classify bool) error {
 		}
 		runReturned = time.Now()
 		close(done)
+		waitCalled = time.Now()
+		eng.Wait()
+		waitReturned = time.Now()
+		openAtWait = openGuns(prs)
+		close(waited)
 	}()
 	if c.Cancel == "during" {
 		go func() {
@@ -595,6 +663,8 @@ func once(c Case, o *vf.Obs, classify bool) error {
 	}
 	select {
 	case <-done:
+	case err := <-crashed:
+		return fmt.Errorf("Engine.Run did not return: %w", err)
 	case <-time.After(runDeadline):
 		buf := make([]byte, 1<<20)
 		n := runtime.Stack(buf, true)
@@ -665,12 +735,17 @@ func once(c Case, o *vf.Obs, classify bool) error {
 	if len(openAtRunNil) > 0 {
 		return fmt.Errorf("at the instant Engine.Run returned nil: %s", strings.Join(openAtRunNil, "; "))
 	}
-	var openAtWait []string
-	okWait, stacks := vf.Deadline(runDeadline, func() {
-		eng.Wait()
-		openAtWait = openGuns(prs)
-	})
-	if !okWait {
+	var stacks string
+	select {
+	case <-waited:
+	case err := <-crashed:
+		return fmt.Errorf("Engine.Wait, called straight after Engine.Run had returned %v, did not return (caller's cancel: %q; reached faults: %v; %d pools): %w",
+			runErr, c.Cancel, reached, len(c.Pools), err)
+	case <-time.After(runDeadline):
+		buf := make([]byte, 1<<20)
+		stacks = string(buf[:runtime.Stack(buf, true)])
+	}
+	if stacks != "" {
 		return fmt.Errorf("Engine.Wait did not return within %v after Run returned %v (reached faults: %v; caller's context cancelled: %v; pools that cannot end by themselves: %v; instances started: %d, finished: %d; %s)\n%s",
 			runDeadline, runErr, reached, callerCancelled, endlessPools(c), m.InstanceStart.Get(), m.InstanceFinish.Get(), describePools(prs), stacks)
 	}
@@ -703,6 +778,13 @@ func once(c Case, o *vf.Obs, classify bool) error {
 	if leak != "" {
 		return fmt.Errorf("goroutines of the engine are still alive %v after Run and Wait returned:\n%s", runDeadline, leak)
 	}
+	// ---- the background work is over when Wait returns ----
+	// Nothing of the engine runs any more (no goroutine of it is left), so every call it was ever going to make has
+	// been made and recorded: none of them may have started after the instant Engine.Wait returned.
+	if late := startedAfter(prs, waitReturned); len(late) > 0 {
+		return fmt.Errorf("the engine went on calling components after Engine.Wait had returned (Run returned %v; Wait was called %v after Run returned and took %v; caller's cancel: %q; reached faults: %v; %d pools): %s",
+			runErr, waitCalled.Sub(runReturned), waitReturned.Sub(waitCalled), c.Cancel, reached, len(c.Pools), strings.Join(late, "; "))
+	}
 	if s, f := m.InstanceStart.Get(), m.InstanceFinish.Get(); s != f {
 		return fmt.Errorf("InstanceStart=%d, InstanceFinish=%d after everything stopped", s, f)
 	}
@@ -722,7 +804,45 @@ func once(c Case, o *vf.Obs, classify bool) error {
 			return fmt.Errorf("pool%d: overlapping shots on one gun", i)
 		}
 	}
+	// the run was over - and Engine.Wait already called - before pool i made its first step (the creation of its
+	// warm-up gun): what Wait is there for
+	class := func(name string) {
+		if !seen[name] {
+			seen[name] = true
+			o.Class(name)
+		}
+	}
+	lateFirst, lateOther := false, false // ... pool 0 / a later pool
+	for i, pr := range prs {
+		if first, ok := pr.rec.first(); ok && first.After(waitCalled) {
+			lateFirst = lateFirst || i == 0
+			lateOther = lateOther || i > 0
+		}
+	}
+	if lateFirst || lateOther {
+		class("pool_began_after_wait_was_called")
+		if lateFirst {
+			class("pool_began_after_wait_was_called_pool_0")
+		}
+		if len(c.Pools) > 3 {
+			class("pool_began_after_wait_was_called_gt_3_pools")
+		}
+		switch {
+		case isCtxErr && c.Cancel == "before":
+			class("pool_began_after_wait_was_called_context_cancelled_before_run")
+		case isCtxErr:
+			class("pool_began_after_wait_was_called_cancel_during_run")
+		case carriesFault:
+			class("pool_began_after_wait_was_called_other_pool_failed")
+			for _, pr := range prs {
+				if len(pr.reached()) > 0 && pr.pc.firstStepFault() != "" {
+					class("pool_began_after_wait_was_called_other_pool_failed_at_once")
+				}
+			}
+		}
+	}
 	if classify {
+		o.ClassIf(len(c.Pools) > 3, "pools_gt_3")
 		for _, r := range reached {
 			o.Class("fault_" + r[strings.Index(r, ":")+1:])
 		}
